@@ -141,7 +141,7 @@ def jobs(tier):
 def meta(tier):
     return {
         'bounds': ['data lengths ' + ('{1,2,7,8,9,16,20,254,255}' if tier == 'quick' else 'every length 1..255') + ' bytes (single-frame DM16 up to 7, RTS/CTS above), object sizes 1/2/4/8',
-                   '32-bit pointer, every data byte supplied by the server, every written value (full unsigned range), the seed (all 16-bit values) symbolic; key function seed ^ 0xFFFF',
+                   '32-bit pointer, every data byte supplied by the server, every written value (full unsigned range), the seed (all 16-bit values) symbolic; key function (seed + 0x1234) mod 2^16 (not self-inverse)',
                    'read raw / converted, signed / unsigned; direct and spatial addressing; with and without seed/key; client through MemoryAccess and through Dm14Query',
                    '1..3 transactions back to back on the same objects, each with its own symbolic pointer' + ('' if tier == 'quick' else ' (every history of 2 and of 3 transactions over 7 shapes)') + '; canonical schedule (all interleavings for one 20-byte read and write' + ('' if tier == 'quick' else ' and for 8, 9, 15, 30 bytes') + ')'],
         'outside': ['other lengths', 'J1939-22'],
